@@ -123,6 +123,45 @@ fn scenarios(tier: Tier) -> Vec<(Program, usize)> {
             }
         }
     }
+    // two writers open at once that declare the same integrity for the same data (kill points
+    // run through both of them): whatever they share, a content address only ever holds whole data
+    for len in [24usize, 9000] {
+        for fl in [Fl::Sync, Fl::Async] {
+            for b_first in [false, true] {
+                let mut a = WriteSpec::simple(Some(0), 0);
+                a.chunks = vec![len / 2];
+                let mut b = WriteSpec::simple(Some(1), 0);
+                b.chunks = vec![len / 3, len / 3];
+                let op = super::basic::two_writers(a, b, b_first, 1);
+                out.push((Program { keys: keys.clone(), blobs: vec![Blob::new(len, 23), Blob::new(13, 22)], steps: vec![Step { op, fl }] }, 0));
+            }
+        }
+    }
+    // declarations that do not match, on the memory-mapped path: too many bytes (the surplus
+    // being whole zero chunks), too few bytes (with the data already stored: the rejected
+    // writer must not disturb the stored copy at any instant)
+    for (len, fill, off, chunks, warm) in [
+        (262144usize, crate::blob::Fill::ZeroTail, -65536i64, vec![174779usize], false),
+        (262144, crate::blob::Fill::ZeroTail, -65536, vec![174779, 21829, 4096], true),
+        (9000, crate::blob::Fill::Rand, 40, vec![3000], true),
+        (9000, crate::blob::Fill::Rand, 4096, vec![3000, 3000], true),
+        (70000, crate::blob::Fill::Zero, -4096, vec![65904], false),
+    ] {
+        for fl in [Fl::Sync, Fl::Async] {
+            let blobs = vec![Blob { len, salt: 24, fill }, Blob::new(13, 22)];
+            let mut steps = Vec::new();
+            if warm {
+                steps.push(Step { op: Op::Write(WriteSpec::simple(Some(1), 0)), fl: Fl::Sync });
+            }
+            let mut w = WriteSpec::simple(Some(0), 0);
+            w.entry = WEntry::Opts;
+            w.declare = Declare::Off(off);
+            w.chunks = chunks.clone();
+            steps.push(Step { op: Op::Write(w), fl });
+            let victim = steps.len() - 1;
+            out.push((Program { keys: keys.clone(), blobs, steps }, victim));
+        }
+    }
     out
 }
 
@@ -213,6 +252,8 @@ impl Engine for C03 {
             // torn lengths: exhaustive for small plain data, sampled otherwise
             let w = match &prog.steps[victim].op {
                 Op::Write(w) => w.clone(),
+                // two writers: torn lengths are taken from the first one's chunking
+                Op::TwoWriters { a, .. } => a.clone(),
                 _ => unreachable!(),
             };
             let nwrites = if w.streamed() { crate::exec::cut_chunks(&vec![0u8; len.min(1 << 16)], &w.chunks).iter().filter(|c| !c.is_empty()).count() } else { 1 };
